@@ -188,45 +188,59 @@ impl Check for C15 {
             };
             let got: Vec<(u16, usize, usize)> = got.iter().filter(|t| t.ty != 0).map(|t| (t.ty, t.start, t.end)).collect();
             if got != want {
-                // classify by the first differing token
+                // classify by what starts at the first differing position
                 let i = got.iter().zip(&want).position(|(a, b)| a != b).unwrap_or(got.len().min(want.len()));
-                let w = want.get(i).copied().unwrap_or((0, 0, 0));
-                let wtext = input.get(w.1..w.2).unwrap_or("");
-                let sig = if w.0 == 4 {
-                    // which pair?
-                    let pair = c.block.iter().find(|(s, _, _)| wtext.starts_with(s.as_str()));
-                    match pair {
-                        Some((s0, e, _)) if e.chars().count() == 3 => {
-                            // parol's pattern for three-character end delimiters tiles the body with
-                            // [^e0] | e0[^e1] | e0e1[^e2]; bodies that cannot be tiled that way (a
-                            // partial end delimiter directly in front of the real one) are the
-                            // recorded finding
-                            let e: Vec<char> = e.chars().collect();
-                            let body: Vec<char> = wtext[s0.len()..wtext.len() - e.iter().map(|c| c.len_utf8()).sum::<usize>()].chars().collect();
-                            let n = body.len();
-                            let mut can = vec![false; n + 1];
-                            can[0] = true;
-                            for i in 0..n {
-                                if !can[i] {
-                                    continue;
-                                }
-                                if body[i] != e[0] {
-                                    can[i + 1] = true;
-                                }
-                                if i + 1 < n && body[i] == e[0] && body[i + 1] != e[1] {
-                                    can[i + 2] = true;
-                                }
-                                if i + 2 < n && body[i] == e[0] && body[i + 1] == e[1] && body[i + 2] != e[2] {
-                                    can[i + 3] = true;
-                                }
-                            }
-                            if can[n] { "C15:block_comment_with_3_char_end_delimiter" } else { "C15:block_comment_3_char_end_delimiter_after_partial_delimiter" }
+                let w = want.get(i).copied().unwrap_or((0, input.len(), input.len()));
+                let rest = &input[w.1..];
+                let tileable = |body: &[char], e: &[char]| -> bool {
+                    let n = body.len();
+                    let mut can = vec![false; n + 1];
+                    can[0] = true;
+                    for i in 0..n {
+                        if !can[i] {
+                            continue;
                         }
-                        Some((_, e, _)) if e.chars().count() == 2 => "C15:block_comment_with_2_char_end_delimiter",
-                        _ => "C15:block_comment_with_1_char_end_delimiter",
+                        if body[i] != e[0] {
+                            can[i + 1] = true;
+                        }
+                        if i + 1 < n && body[i] == e[0] && body[i + 1] != e[1] {
+                            can[i + 2] = true;
+                        }
+                        if i + 2 < n && body[i] == e[0] && body[i + 1] == e[1] && body[i + 2] != e[2] {
+                            can[i + 3] = true;
+                        }
                     }
+                    can[n]
+                };
+                // a line comment starting here whose line contains a lone carriage return
+                let lone_cr = c.line.iter().any(|(s0, _)| {
+                    rest.starts_with(s0.as_str()) && {
+                        let line = rest.split('\n').next().unwrap_or("");
+                        let b = line.as_bytes();
+                        (0..b.len()).any(|k| b[k] == b'\r' && k + 1 < b.len())
+                            || (line.ends_with('\r') && line.len() == rest.len())
+                    }
+                });
+                // a block comment starting here with a three-character end delimiter whose body (up to
+                // the first end delimiter) cannot be tiled by [^e0] | e0[^e1] | e0e1[^e2]
+                let partial3 = c.block.iter().any(|(s0, e, _)| {
+                    let ev: Vec<char> = e.chars().collect();
+                    ev.len() == 3 && rest.starts_with(s0.as_str()) && {
+                        let after = &rest[s0.len()..];
+                        match after.find(e.as_str()) {
+                            Some(q) => !tileable(&after[..q].chars().collect::<Vec<_>>(), &ev),
+                            None => false,
+                        }
+                    }
+                });
+                let sig = if partial3 {
+                    "C15:block_comment_3_char_end_delimiter_after_partial_delimiter"
+                } else if lone_cr {
+                    "C15:line_comment_ended_by_lone_cr"
+                } else if w.0 == 4 {
+                    "C15:block_comment_differs"
                 } else if w.0 == 3 {
-                    if wtext.ends_with('\r') { "C15:line_comment_ended_by_lone_cr" } else { "C15:line_comment_differs" }
+                    "C15:line_comment_differs"
                 } else {
                     "C15:tokens_around_comment_differ"
                 };
@@ -236,8 +250,8 @@ impl Check for C15 {
             for w in &want {
                 if w.0 == 4 {
                     let wt = &input[w.1..w.2];
-                    if let Some((s, e, _)) = c.block.iter().find(|(s, _, _)| wt.starts_with(s.as_str())) {
-                        let body = &wt[s.len()..wt.len() - e.len()];
+                    if let Some((s, e, _)) = c.block.iter().find(|(s, e, _)| wt.starts_with(s.as_str()) && wt.ends_with(e.as_str()) && wt.len() >= s.len() + e.len()) {
+                        let body = wt.get(s.len()..wt.len() - e.len()).unwrap_or("");
                         let first: String = e.chars().take(1).collect();
                         if body.ends_with(&first) || input[w.2..].contains(e.as_str()) {
                             nt = true;
@@ -318,16 +332,23 @@ impl StrayCase {
     }
 }
 
+#[derive(Clone, Debug, Serialize, Deserialize)]
+pub enum UnmatchedCase {
+    Fixed(StrayCase),
+    Scan(super::scan::ScanCase),
+}
+
 impl Check for C16 {
-    type Case = StrayCase;
+    type Case = UnmatchedCase;
     fn id(&self) -> &'static str {
         "C16"
     }
     fn rule(&self) -> String {
-        "case = grammar S: 'a' { 'b' } [ 'c' ] (ll(k) or lalr(1)) x {auto newline, auto whitespace, allow_unmatched} on/off x a token string (sentence or not) x one stray text (unmatched printable, LF, CR, CRLF, tab, space, non-ASCII, NUL, U+2028, U+0085) inserted at a random token boundary; oracle via the reference lexer: if some character of the stray text is matched by no rule of the state (no terminal, whitespace, newline or comment rule), then without %allow_unmatched the parse must fail, and with it the verdict must equal the verdict of the input without the stray text and the parse tree must contain the unmatched text as a leaf. Evaluations = parser runs. Non-trivial = stray text really unmatched in that state (decided by the reference lexer); distinct by case".into()
+        "two families. (1) random scanner grammars as in C13 without lookaheads (several scanner states with their own %allow_unmatched / auto flags, terminals limited to some states, state switches): if the reference lexer finds text that no rule of the active state matches and that state has no %allow_unmatched, the parse must fail; if the parse succeeds every unmatched gap is a leaf of the tree. (2) grammar S: 'a' { 'b' } [ 'c' ] (ll(k) or lalr(1)) x {auto newline, auto whitespace, allow_unmatched} on/off x a token string (sentence or not) x one stray text (unmatched printable, LF, CR, CRLF, tab, space, non-ASCII, NUL, U+2028, U+0085) inserted at a random token boundary; oracle via the reference lexer: if some character of the stray text is matched by no rule of the state (no terminal, whitespace, newline or comment rule), then without %allow_unmatched the parse must fail, and with it the verdict must equal the verdict of the input without the stray text and the parse tree must contain the unmatched text as a leaf. Evaluations = parser runs. Non-trivial = stray text really unmatched in that state (decided by the reference lexer); distinct by case".into()
     }
-    fn strategy(&self, _tier: Tier) -> BoxedStrategy<StrayCase> {
-        (any::<[bool; 4]>(), proptest::collection::vec(0u8..3, 0..6), proptest::collection::vec(0u8..3, 6), 0usize..STRAYS.len(), 0usize..7, any::<bool>())
+    fn strategy(&self, _tier: Tier) -> BoxedStrategy<UnmatchedCase> {
+        let scan = super::scan::scan_case_strategy(super::scan::ScanParams { lookaheads: false, ..Default::default() }, 6).prop_map(UnmatchedCase::Scan);
+        let fixed = (any::<[bool; 4]>(), proptest::collection::vec(0u8..3, 0..6), proptest::collection::vec(0u8..3, 6), 0usize..STRAYS.len(), 0usize..7, any::<bool>())
             .prop_map(|(f, raw, seps, si, pos, valid)| {
                 // half of the cases start from a sentence a b* c?
                 let sentence = if valid {
@@ -341,9 +362,9 @@ impl Check for C16 {
                     raw
                 };
                 let pos = pos.min(sentence.len());
-                StrayCase { auto_nl_off: f[0], auto_ws_off: f[1], allow_unmatched: f[2], lr: f[3], sentence, seps, stray: STRAYS[si].to_string(), pos }
-            })
-            .boxed()
+                UnmatchedCase::Fixed(StrayCase { auto_nl_off: f[0], auto_ws_off: f[1], allow_unmatched: f[2], lr: f[3], sentence, seps, stray: STRAYS[si].to_string(), pos })
+            });
+        proptest::strategy::Union::new_weighted(vec![(2, fixed.boxed()), (1, scan.boxed())]).boxed()
     }
     fn cases(&self, tier: Tier) -> u32 {
         tier.pick(6000, 150000)
@@ -351,7 +372,11 @@ impl Check for C16 {
     fn shards(&self, _tier: Tier) -> usize {
         16
     }
-    fn run(&self, c: &StrayCase, st: &mut Stats) -> Verdict {
+    fn run(&self, c: &UnmatchedCase, st: &mut Stats) -> Verdict {
+        let c = match c {
+            UnmatchedCase::Fixed(c) => c,
+            UnmatchedCase::Scan(sc) => return run_scan(sc, st),
+        };
         thread_local! {
             static CACHE: std::cell::RefCell<std::collections::BTreeMap<(bool, bool, bool, bool), Option<std::rc::Rc<loader::Loaded>>>> = const { std::cell::RefCell::new(std::collections::BTreeMap::new()) };
         }
@@ -420,4 +445,73 @@ impl Check for C16 {
         st.sample(|| json!({"grammar_flags": {"auto_newline_off": c.auto_nl_off, "auto_ws_off": c.auto_ws_off, "allow_unmatched": c.allow_unmatched, "lalr": c.lr}, "input": with, "accepted": ok_with}));
         Verdict::Pass
     }
+}
+
+
+/// family (1): multi-state scanner grammars
+fn run_scan(c: &super::scan::ScanCase, st: &mut Stats) -> Verdict {
+    let (l, text) = match super::c13::load_case(c) {
+        Ok(x) => x,
+        Err(v) => return v,
+    };
+    let modes = c.ref_modes();
+    let err_ty = c.error_ty();
+    for input in &c.inputs {
+        // replay the reference lexer while tracking the mode of every token
+        let toks = ref_lex(&modes, input, err_ty);
+        let mut mode = 0usize;
+        let mut stack: Vec<usize> = vec![];
+        let mut unmatched_not_allowed = false;
+        let mut gaps: Vec<(usize, usize)> = vec![];
+        let mut offending: Vec<(usize, usize)> = vec![];
+        for t in &toks {
+            if t.ty == err_ty || (t.ty == T_INVALID && !modes[mode].allow_unmatched) {
+                unmatched_not_allowed = true;
+                offending.push((t.start, t.end));
+            }
+            if t.ty == T_INVALID {
+                gaps.push((t.start, t.end));
+            }
+            if let Some((_, sw)) = modes[mode].transitions.iter().find(|(tt, _)| *tt == t.ty) {
+                match sw {
+                    Sw::Enter(n) => mode = *n,
+                    Sw::Push(n) => {
+                        stack.push(mode);
+                        mode = *n;
+                    }
+                    Sw::Pop => {
+                        if let Some(n) = stack.pop() {
+                            mode = n;
+                        }
+                    }
+                }
+            }
+        }
+        let run = interp::run(&l, input, &RunOpts::default(), 50_000);
+        st.eval(1);
+        if let Outcome::Panic(p) = &run.outcome {
+            return Verdict::Fail("C16:parser_panic".into(), format!("{p}\ninput {input:?}\n{text}"));
+        }
+        if unmatched_not_allowed {
+            st.class("scanner_family/unmatched_where_not_allowed");
+            st.nontrivial(hash_of(&(&text, input)));
+            if run.outcome.is_ok() {
+                let only_lf = offending.iter().all(|(a, b)| input[*a..*b].chars().all(|ch| ch == '\n'));
+                let sig = if only_lf { "C16:stray_line_feed_accepted_with_auto_newline_off" } else { "C16:unmatched_input_accepted" };
+                return Verdict::Fail(sig.into(), format!("input {input:?} contains text no rule of the active scanner state matches, but is accepted\nreference tokens {}\n{text}", show_toks(&toks.iter().map(|t| (t.ty, t.start, t.end)).collect::<Vec<_>>(), input)));
+            }
+        } else if !gaps.is_empty() {
+            st.class("scanner_family/unmatched_where_allowed");
+            st.nontrivial(hash_of(&(&text, input)));
+            if run.outcome.is_ok() {
+                let mut leaves: Vec<&Tok> = vec![];
+                run.tree.as_ref().unwrap().leaves(&mut leaves);
+                let kept: Vec<(usize, usize)> = leaves.iter().filter(|t| t.ty == T_INVALID).map(|t| (t.start, t.end)).collect();
+                if kept != gaps {
+                    return Verdict::Fail("C16:unmatched_text_not_kept_in_tree".into(), format!("input {input:?}: tree keeps gaps {kept:?}, reference {gaps:?}\n{text}"));
+                }
+            }
+        }
+    }
+    Verdict::Pass
 }
